@@ -13,3 +13,5 @@ open GrVerif.Props.C04
 #print axioms action_keeps_forest
 #print axioms pipeline_forest
 #print axioms forest_for_clients
+#print axioms attachments_stay_in_segment
+#print axioms every_opcode_keeps_parents_alive
